@@ -1161,6 +1161,14 @@ impl<'a, 'b> Gen<'a, 'b> {
     }
 
     fn gen_custom_ws(&mut self) -> Vec<RuleDef> {
+        if self.src.chance(36) {
+            // the Whitespace rule as an @extern rule (a total user function: space, tab, underscore)
+            return vec![RuleDef::Extern(ExternRule {
+                name: "Whitespace".into(),
+                function: vec!["verif_core".into(), "hooks".into(), "ext_ws".into()],
+                ret: None,
+            })];
+        }
         // total by construction: a closure over terminals / a @no_skip_ws comment rule
         let mut alts = vec![];
         let mut extra = vec![];
